@@ -85,8 +85,13 @@ def make_items(ctx, only=None):
             it['argv'] = ['abidiff', '--no-default-suppression'] + ABIDIFF_OPTS[o] + [a, b]
         else:
             idx = int(n[2:])
-            it['wl'] = K.gen_workload(C.Prng(C.mix_seed(ctx.seed, 14, 7, idx)), big=(idx % 3 == 2), swarm=True)
+            it['wl'] = K.gen_workload(C.Prng(C.mix_seed(ctx.seed, 14, 7, idx)), big=(idx % 3 == 2), swarm=True, splitdbg=True)
             it['wl']['format'] = 'dir' if idx % 4 else 'tar'
+            if idx == 3:
+                import copy
+                it['wl'] = copy.deepcopy(K.WL_ERROR_PAIRS)     # the exit status is accumulated in completion order from error and change bits
+            if idx % 6 == 1:
+                it['wl']['splitdbg'] = True       # split debug info: the debug-info packages are looked up by every comparison task
         ref = run_item(ctx, it, {'k': 0, 'layout_seed': C.mix_seed(ctx.seed, 14, 1, 0)})
         if ref[0].klass[0] != 'exit':
             raise C.InfraError('reference run of %s died: %s %s' % (name, ref[0].klass, (ref[0].stderr or b'')[-300:]))
@@ -125,7 +130,8 @@ def run_item(ctx, it, params):
     if it['tool'] == 'abipkgdiff':
         simt = K.gen_simt(C.Prng(rng.next()), len(it['wl']['files']))
         ext = '' if it['wl']['format'] == 'dir' else '.' + it['wl']['format']
-        t['argv'] = ['abipkgdiff'] + it['wl']['options'] + [pkroot + '/pkg-f1' + ext, pkroot + '/pkg-s1' + ext]
+        dbg = ['--d1', pkroot + '/pkg-f1-debuginfo' + ext, '--d2', pkroot + '/pkg-s1-debuginfo' + ext] if it['wl'].get('splitdbg') else []
+        t['argv'] = ['abipkgdiff'] + it['wl']['options'] + dbg + [pkroot + '/pkg-f1' + ext, pkroot + '/pkg-s1' + ext]
         t['simt'] = simt
     else:
         t['argv'] = it['argv']
